@@ -96,9 +96,11 @@ def parseCOps (s : String) : Option (List Op) :=
     | ["rx", n] => n.toNat?.map .readExact
     | ["wa", h] => some (.writeAll (unhex h.toList))
     | ["wa"] => some (.writeAll [])
-    -- `write_vectored` with no buffer, or with one: a `write` of nothing / of that buffer (both cursors)
-    | ["wv"] => some (.write [])
-    | ["wv", h] => some (.write (unhex h.toList))
+    -- `write_vectored` / `read_vectored` with any number of buffers (`|`-separated; an empty hex string is an empty buffer)
+    | ["wv"] => some (.writeV [])
+    | ["wv", h] => some (.writeV ((h.splitOn "|").map fun x => unhex x.toList))
+    | ["rv"] => some (.readV [])
+    | ["rv", a] => ((a.splitOn "|").mapM fun (x : String) => x.toNat?).map .readV
     | _ => none
 
 open Eps.Cur in
